@@ -16,8 +16,11 @@ RULE = ("random histories of 6-25 public query/conversion calls over a pool of l
         "with the result of the same call on freshly rebuilt equal objects, and the structure of every operand with its "
         "structure before the call. A divergence is certified by the two runs of the real code. Non-trivial: history "
         "with >=8 calls touching >=3 kinds of objects.")
-EXPLANATION = "History independence is decided by running every call of a random history twice on the real code - on the live objects and on freshly rebuilt equal objects - and comparing canonical results and operand snapshots; a divergence is certified by the two runs themselves. The value-semantics of the individual operations is what C01-C18 prove; no separate Lean theorem about the library's caches is claimed in this round."
-THEOREMS = []
+EXPLANATION = "History independence is decided by running every call of a random history twice on the real code - on the live objects and on freshly rebuilt equal objects - and comparing canonical results and operand snapshots; a divergence is certified by the two runs themselves. The value-semantics of the individual operations is what C01-C18 prove; the one piece of hidden mutable state that survives a call - the in-place production counters and impact lists behind get_generating_symbols / get_nullable_symbols - is modelled step for step (Pfl/Model/CFGCounters.lean), proved to be restored by every run and to give history-independent answers (genCounters_restores, genCounters_history), and compared with the implementation's cached tables after every grammar call of a history."
+THEOREMS = ["Pfl.CFG.genCounters_restores",
+            "Pfl.CFG.genCounters_history",
+            "Pfl.CFG.genCounters_generating",
+            "Pfl.CFG.genCounters_nullable"]
 REGEX_TEXTS = ["a", "b", "a b", "a*", "a|b", "(a|b)*", "a b*", "$", "a (b|a)"]
 WORDS = [[], ["a"], ["b"], ["a", "b"], ["a", "a"], ["b", "a"], ["a", "b", "b"]]
 
@@ -279,4 +282,10 @@ def run_case(case, drv):
             res.violation("%s.%s" % (op["kind"], op["name"]), "operation changed the structure of its operands",
                           detail={"step": idx, "op": op, "changed": changed})
             return res
+        # hidden state behind the answers: the cached counter tables of the grammars must be the
+        # tables of a fresh grammar after every call (Lean: genCounters_restores)
+        if op["kind"] == "g" and op["name"] in ("generating", "nullable", "is_empty", "contains", "normal_form",
+                                                 "remove_epsilon", "is_finite", "words"):
+            st, _ = outcome(lambda: G.counter_tie(live["g%d" % op["a"]], drv, res,
+                                                  op="g.%s" % op["name"]), limit=8.0)
     return res
